@@ -10,6 +10,7 @@ _UNIT_MODULES = [
     "units.u_charcount.unit",
     "units.u_symbols.unit",
     "units.u_rulemap.unit",
+    "units.u_literal.unit",
 ]
 
 UNITS = {}
